@@ -598,8 +598,16 @@ def tables_from(ex, at, unrec):
     # parse_from_ty: path -> last segment in the table => Value; reference => recurse; else Debug
     pf = rsparse.fns_in(ex).get("parse_from_ty", (None, None))[1]
     t["ref_recurses"] = pf is not None and re.search(r"Type::Reference\s*\(\s*syn::TypeReference\s*\{\s*elem\s*,\s*\.\.\s*\}\s*\)\s*=>\s*RecordType::parse_from_ty\s*\(\s*elem\s*\)", pf) is not None
-    t["path_last_segment"] = pf is not None and "next_back()" in pf and "TYPES_FOR_VALUE.iter().any(|&t| t == ident)" in rsparse.norm(pf) \
-        and re.search(r"_\s*=>\s*RecordType::Debug", pf) is not None
+    guard = toks("Type::Path(TypePath { path, .. }) if path.segments.iter().next_back().map(|path_segment| { "
+                 "let ident = path_segment.ident.to_string(); Self::TYPES_FOR_VALUE.iter().any(|&t| t == ident) }).unwrap_or(false) => "
+                 "{ RecordType::Value }")
+    pft = toks(pf) if pf is not None else []
+    t["path_last_segment"] = pft[:3] == ["match", "ty", "{"] and pft[3:3 + len(guard)] == guard
+    t["other_debug"] = pf is not None and re.search(r"_\s*=>\s*RecordType::Debug\s*,?\s*\}\s*$", pf) is not None
+    if not t["path_last_segment"]:
+        unrec.append("parse_from_ty: the path arm is not `last segment's identifier in TYPES_FOR_VALUE => Value`")
+    if not t["other_debug"]:
+        unrec.append("parse_from_ty: `_ => RecordType::Debug`")
     # param_names: which record type each pattern form passes on
     pn = rsparse.fns_in(ex).get("param_names", (None, None))[1]
     rules = {}
@@ -713,6 +721,28 @@ def render(out):
     L.append("Definition gen_filter_skip : bool := %s." % ("true" if out.get("filter_skip") else "false"))
     L.append("Definition gen_filter_override : bool := %s." % ("true" if out.get("filter_override") else "false"))
     L.append("Definition gen_record_map : bool := %s." % ("true" if out.get("record_map") else "false"))
+    t = out.get("tables") or {}
+    L.append("")
+    L.append("(** RecordType: TYPES_FOR_VALUE, the shape of parse_from_ty, the arms of param_names *)")
+    L.append("Definition gen_types_for_value : list string := [%s]." % "; ".join(rsparse.coq_str(x) + "%string" for x in (t.get("types_for_value") or [])))
+    L.append("Definition gen_path_last_segment : bool := %s.   (* a path type is looked up by its LAST segment's identifier *)"
+             % ("true" if t.get("path_last_segment") else "false"))
+    L.append("Definition gen_ref_recurses : bool := %s." % ("true" if t.get("ref_recurses") else "false"))
+    L.append("Definition gen_other_types_debug : bool := %s." % ("true" if t.get("other_debug") else "false"))
+    rules = t.get("pat_rules") or {}
+    rmap = {"keep": "PRKeep", "recurse-keep": "PRKeep", "recurse-debug": "PRDebug", "none": "PRNone"}
+    def pr(key):
+        return coq_opt(rmap.get(rules.get(key)))
+    L.append("Definition gen_pat_rule (k : patkind) : option prule :=")
+    L.append("  match k with")
+    L.append("  | PIdent | PMut | PGeneric | PImplTrait => %s   (* Pat::Ident *)" % pr("Ident"))
+    L.append("  | PRefPat => %s                                (* Pat::Reference *)" % pr("Reference"))
+    L.append("  | PTuple => %s" % pr("Tuple"))
+    L.append("  | PStruct => %s" % pr("Struct"))
+    L.append("  | PTupleStruct => %s" % pr("TupleStruct"))
+    L.append("  | PSelf => %s                                  (* FnArg::Receiver *)" % ("(Some PRDebug)" if t.get("receiver_debug") else "None"))
+    L.append("  | PWild => %s                                  (* `_ =>` *)" % pr("_"))
+    L.append("  end.")
     L.append("")
     L.append("Definition gen_unrecognised : list string := [%s]." % "; ".join(rsparse.coq_str(u[:200]) + "%string" for u in out.get("unrec", [])))
     return "\n".join(L) + "\n"
